@@ -18,7 +18,7 @@ Definition unitK : kern :=
     set iff one of them was signalled; the modulation queue holds the [laststep] records 0, 1, ... *)
 Definition st0 (c : cfg) (at_ : Z) (pc0 : Z) : st unitK :=
   mkst (K:=unitK) 0 0 tt tt tt tt tt tt tt tt tt tt tt tt (List.map Z.of_nat (seq 0 (Z.to_nat (laststep c)))) [] tt tt
-       ((0 <=? at_) && (at_ <? pc0)) pc0 [] [] None [].
+       ((0 <=? at_) && (at_ <? pc0)) pc0 [] [] None [] [] false.
 
 Inductive rkind := KPS | KDef | KCsr | KWake | KTracks | KRF | KPadded.
 Definition summary (r : rec unitK) : rkind * Z * Z :=
